@@ -304,7 +304,7 @@ SELFTEST = [
     {"name": "visit_Expr also drops attribute loads", "file": OPT, "expect": "C15.R4", "old": "        if isinstance(node.value, (ast.Constant, ast.Name)):\n            return None", "new": "        if isinstance(node.value, (ast.Constant, ast.Name, ast.Attribute)):\n            return None"},
     {"name": "dead code cut after Pass", "file": OPT, "expect": "C15.R4", "old": "        if isinstance(node, (ast.Break, ast.Continue, ast.Raise, ast.Return)):", "new": "        if isinstance(node, (ast.Break, ast.Continue, ast.Raise, ast.Return, ast.Pass)):"},
     {"name": "async global context removed (the repaired defect)", "file": OPT, "expect": "C15.R6",
-     "old": "        \"\"\"Eliminate dead code from async function bodies.\"\"\"\n        with self._new_global_context():\n            new_node = self.generic_visit(node)\n", "new": "        \"\"\"Eliminate dead code from async function bodies.\"\"\"\n        new_node = self.generic_visit(node)\n"},
+     "old": "        \"\"\"Eliminate dead code from async function bodies.\"\"\"\n        with self._new_global_context() as global_names:\n            new_node = self.generic_visit(node)\n", "new": "        \"\"\"Eliminate dead code from async function bodies.\"\"\"\n        global_names = self._global_context\n        new_node = self.generic_visit(node)\n"},
     {"name": "new visitor rewrites comparisons", "file": OPT, "expect": "C15.R7",
      "old": "    def visit_Global(self, node: ast.Global) -> ast.Global | None:", "new": "    def visit_Compare(self, node: ast.Compare) -> ast.AST:\n        return self.generic_visit(node)\n\n    def visit_Global(self, node: ast.Global) -> ast.Global | None:"},
     {"name": "visit_Try drops the finally block", "file": OPT, "expect": "C15.R7", "old": "                finalbody=_filter_dead_code(new_node.finalbody),\n", "new": ""},
